@@ -2,6 +2,7 @@ package rules
 
 import (
 	"fmt"
+	"go/types"
 	"strings"
 
 	"golang.org/x/tools/go/ssa"
@@ -100,14 +101,34 @@ func collectorRules(c *core.Ctx, s *Stage, col, w *Goroutine, vals, result *ir.T
 	var accPhi *ssa.Phi
 	for _, in := range h.Instrs {
 		if phi, ok := in.(*ssa.Phi); ok && (loop == nil || phi != loop.Phi) {
+			if bt, isB := phi.Type().Underlying().(*types.Basic); isB && bt.Info()&types.IsInteger != 0 && loop == nil {
+				continue // the counter of a loop form not recognised as counted
+			}
 			accPhi = phi
 		}
 	}
-	if accPhi == nil {
-		c.Undecided("acc-provenance", "fork.Fold#collector", col.Fn.Pos(), "no loop-carried accumulator found")
-		return
+	var accQ Quantity
+	switch {
+	case accPhi != nil:
+		accQ = PhiQuantity(an, h, accPhi, nil)
+	default:
+		// a cell: the variable captured by the loop body of a range-over-func, the field of a state object - found
+		// as the first operand of Combine
+		var addr *ir.Term
+		for _, p := range an.Segs[h] {
+			for _, st := range p.Events(ir.KCall) {
+				if st.Method != nil && st.Method.Name() == "Combine" && len(st.A) == 3 && st.A[1].Op == "load" && len(st.A[1].Args) == 1 && cellAddr(st.A[1].Args[0]) {
+					addr = st.A[1].Args[0]
+				}
+			}
+		}
+		if addr == nil {
+			c.Undecided("acc-provenance", "fork.Fold#collector", col.Fn.Pos(), "no loop-carried accumulator found")
+			return
+		}
+		accQ = CellQuantity(an, addr)
 	}
-	sym := an.Start[h].Reg(accPhi)
+	sym := accQ.StartSym(&ir.Path{From: h})
 	okProv, okComb := true, true
 	isEmpty := func(t *ir.Term) bool {
 		m, _, args, isC := callParts(t)
@@ -141,7 +162,7 @@ func collectorRules(c *core.Ctx, s *Stage, col, w *Goroutine, vals, result *ir.T
 			"the collector sends %d values on the result channel (want exactly 1, before its close, capacity >= 1; found capacity %s)", n, short(chanCap(result)))
 	}
 	for _, p := range an.Segs[nil] {
-		v := p.PhiOut[accPhi]
+		v := accQ.ValueAt(p, len(p.Steps))
 		if p.To == nil && rotated && p.Exit == ir.ExitReturn {
 			// bottom-tested loop skipped (no partial expected): the result is the monoid's Empty() itself
 			exitRule(p, nil, isEmpty)
@@ -167,7 +188,7 @@ func collectorRules(c *core.Ctx, s *Stage, col, w *Goroutine, vals, result *ir.T
 	}
 	for _, p := range an.Segs[h] {
 		if p.To == h || rotated && p.Exit == ir.ExitReturn {
-			v := p.PhiOut[accPhi]
+			v := accQ.ValueAt(p, len(p.Steps))
 			if p.To != h {
 				// bottom-tested loop: the exit path carries the last iteration; its accumulator is what is sent
 				for _, st := range p.Events(ir.KSend) {
